@@ -125,7 +125,7 @@ pub fn check_one(
         ));
     }
     let strip = |l: &Vec<std::collections::BTreeMap<u8, u64>>| -> Vec<std::collections::BTreeMap<u8, u64>> {
-        l.iter().map(|m| m.iter().filter(|(k, _)| **k != TAG_LOGCFG).map(|(k, v)| (*k, *v)).collect()).collect()
+        l.clone()
     };
     if !levels_eq(&strip(&exp_levels), &real.final_levels) {
         return Some(Violation::new(
